@@ -11,7 +11,19 @@ import mirdump
 class Driver:
     """native replay driver (real liwe crate, path dependency on /repo)"""
     def __init__(self):
-        self.bin = os.path.join(VERIF, 'replay', 'target', 'debug', 'iwe-replay')
+        self.dir = os.path.join(VERIF, 'replay')
+        if REPO != '/repo':
+            # relocated run (seed matrix in a scratch worktree): private copy of the driver crate pointing at that tree
+            self.dir = os.path.join(os.environ.get('VERIF_CACHE') or os.path.join(VERIF, '.cache'), 'replay')
+            os.makedirs(os.path.join(self.dir, 'src'), exist_ok=True)
+            for f in ('Cargo.lock', os.path.join('src', 'main.rs')):
+                s = open(os.path.join(VERIF, 'replay', f)).read()
+                if not os.path.exists(os.path.join(self.dir, f)) or open(os.path.join(self.dir, f)).read() != s:
+                    open(os.path.join(self.dir, f), 'w').write(s)
+            t = open(os.path.join(VERIF, 'replay', 'Cargo.toml')).read().replace('/repo/', REPO.rstrip('/') + '/')
+            if not os.path.exists(os.path.join(self.dir, 'Cargo.toml')) or open(os.path.join(self.dir, 'Cargo.toml')).read() != t:
+                open(os.path.join(self.dir, 'Cargo.toml'), 'w').write(t)
+        self.bin = os.path.join(self.dir, 'target', 'debug', 'iwe-replay')
         self.built = False
         self.calls = 0
 
@@ -19,7 +31,7 @@ class Driver:
         if self.built:
             return
         env = dict(os.environ, CARGO_NET_OFFLINE='true')
-        p = subprocess.run(['cargo', 'build', '--offline', '--quiet'], cwd=os.path.join(VERIF, 'replay'), env=env,
+        p = subprocess.run(['cargo', 'build', '--offline', '--quiet'], cwd=self.dir, env=env,
                            stdout=subprocess.PIPE, stderr=subprocess.PIPE, text=True)
         if p.returncode != 0:
             sys.stderr.write(p.stderr[-3000:])
@@ -151,7 +163,7 @@ def run_check(pid, tier, seed, harness_specs, level_note, args):
                 except Exception as e:
                     okr = False
                     v['replay_verdict'] = 'replay error: %r' % (e,)
-                rp = os.path.join(VERIF, 'evidence', 'replays', '%s-%s-%s.json' % (pid, hz.name, hashlib.md5((law + role + json.dumps(jsonable(v.get('input_tree')))).encode()).hexdigest()[:10]))
+                rp = os.path.join(os.environ.get('VERIF_EVIDENCE_DIR') or os.path.join(VERIF, 'evidence'), 'replays', '%s-%s-%s.json' % (pid, hz.name, hashlib.md5((law + role + json.dumps(jsonable(v.get('input_tree')))).encode()).hexdigest()[:10]))
                 os.makedirs(os.path.dirname(rp), exist_ok=True)
                 json.dump(jsonable({'property': pid, 'harness': hz.name, 'law': law, 'role': role, 'model': v.get('model'), 'info': v.get('info'),
                                     'decisions': v.get('trace'), 'script': v.get('replay_script'), 'native_result': v.get('replay_result'),
@@ -216,8 +228,9 @@ def run_check(pid, tier, seed, harness_specs, level_note, args):
         'wall_s': round(time.time() - t0, 1),
         'violations': len(new_violations),
     }
-    os.makedirs(os.path.join(VERIF, 'evidence'), exist_ok=True)
-    json.dump(ev, open(os.path.join(VERIF, 'evidence', pid + '.json'), 'w'), indent=1)
+    evdir = os.environ.get('VERIF_EVIDENCE_DIR') or os.path.join(VERIF, 'evidence')
+    os.makedirs(evdir, exist_ok=True)
+    json.dump(ev, open(os.path.join(evdir, pid + '.json'), 'w'), indent=1)
     print('check %s tier=%s: paths=%d obligations=%d z3_queries=%d tv=%d/%d wall=%.0fs exit=%d' % (
         pid, tier, total['paths'], total['obligations'], total['queries'], total['tv'] - total['tv_bad'], total['tv'], time.time() - t0, rc))
     return rc
